@@ -131,7 +131,7 @@ USER_NAMES = {"ext_sub", "ext_hidden", "ext6_priv", "ext6_pub", "m5", "m6", "p5"
 PROBES = [
     ("m2.f90", 9, "loc_value = pu", {"pub_alpha", "pu_inner", "pu_local_mod", "pub_sub"}, {"pub_beta", "pub_fun", "priv_gamma"}),
     ("m2.f90", 10, "loc_value = re", {"ren_beta"}, {"pub_beta"}),
-    ("m2.f90", 11, "loc_value = obj%", {"comp_x", "comp_y", "bind_f"}, {"pub_alpha", "loc_value", "m2_var"}),
+    ("m2.f90", 11, "loc_value = obj%", {"comp_x", "comp_y", "bind_f"}, {"pub_alpha", "loc_value", "m2_var", "m1", "m2", "m4", "m5", "main", "s1", "s2"}),
     ("m2.f90", 12, "loc_value = obj%co", {"comp_x", "comp_y"}, {"bind_f", "pub_alpha"}),
     ("m2.f90", 13, "call pu", {"pub_sub"}, {"pub_alpha", "pu_inner", "pu_local_mod", "pub_fun"}),
     ("m2.f90", 14, "loc_value = ar", {"arg_one"}, set()),
